@@ -63,6 +63,9 @@ def materials(rng):
     out.append(("iso2ps", dict(kind="iso", dim=2, E=210000.0, v=0.3, planeStress=True)))
     out.append(("iso2pe", dict(kind="iso", dim=2, E=210000.0, v=0.3, planeStress=False)))
     out.append(("iso3", dict(kind="iso", dim=3, E=210000.0, v=0.3)))
+    # other units for the moduli (powers of two: the same stiffness in Pa / in TPa-like units)
+    out.append(("iso3_E2m60", dict(kind="iso", dim=3, E=210000.0 * 2.0 ** -60, v=0.3)))
+    out.append(("iso2pe_E2p50", dict(kind="iso", dim=2, E=210000.0 * 2.0 ** 50, v=0.3, planeStress=False)))
     out.append(("ti2", dict(kind="ti", dim=2, El=11580.0, Et=500.0, Gl=450.0, vl=0.02, vt=0.44, planeStress=False)))
     out.append(("ti3", dict(kind="ti", dim=3, El=11580.0, Et=500.0, Gl=450.0, vl=0.02, vt=0.44)))
     for dim in (2, 3):
